@@ -11,10 +11,11 @@ Not decided: that prediction under an arbitrary parameter vector yields decodabl
 import re
 from .. import flow, proto, alpha, err
 from ..facts import op_place, callee_def
-from ..common import strip_generics, PC
+from ..common import strip_generics, PC, macro_names
 from . import c02
 
 PP = "preflate_rs::preflate_parameter_estimator::PreflateParameters::"
+P = "preflate_rs::"
 
 
 def run(ctx, rep):
@@ -44,6 +45,75 @@ def run(ctx, rep):
     from . import c02 as _c02, c04 as _c04
     _c02.m10(F, rep, "P10")
     _c04.rejections_rule(ctx, rep, "P11")
+    p12(F, rep)
+
+
+def _mentions(o, l):
+    """Does the statement / terminator tree `o` mention local l as (the base of) a place?"""
+    if isinstance(o, dict):
+        if o.get("l") == l and isinstance(o.get("p"), list):
+            return True
+        return any(_mentions(v, l) for k, v in o.items() if k not in ("exp", "callee"))
+    if isinstance(o, list):
+        return any(_mentions(v, l) for v in o)
+    return False
+
+
+def p12(F, rep, rule="P12"):
+    """What only the analysis knows must not steer the shared predictor.  `predict_block` and `recreate_block` drive the same
+    `TokenPredictor` methods; where the reconstruction side can only hand a constant `None` for an `Option` parameter (it does
+    not have the token yet) and the analysis side hands the real thing, the callee must not use that parameter outside log
+    output: a result that depends on it is a prediction the reconstruction cannot repeat, so `Ok` corrections come out that
+    no parameters can replay (seed10-c08a: `repredict_reference` fell back on the wanted reference when the match finder
+    found none)."""
+    from .. import flow
+    TP = P + "token_predictor::"
+    from . import c04 as _c04
+    recon = set(_c04.pure_leaves(F)[2])
+    sites = {}
+    for name, b in sorted(F.bodies.items()):
+        if not name.startswith(TP):
+            continue
+        for bb, t in b.calls():
+            c = t["callee"]
+            cd = callee_def(t)
+            if not cd.startswith(TP) or cd not in F.bodies:
+                continue
+            for i, a in enumerate(t["args"]):
+                try:
+                    o = flow.origin(b, a, through=("use",))
+                    aggs = [r for _, _, r in o.exprs if r["k"] == "agg"]
+                except Exception:
+                    aggs = []
+                is_none = len(aggs) == 1 and aggs[0].get("adt") == "std::option::Option" and aggs[0].get("vname") == "None"
+                sites.setdefault((cd, i), []).append((name, is_none, b.where(bb)))
+    n = 0
+    for (cd, i), ss in sorted(sites.items()):
+        if not any(x[1] for x in ss) or all(x[1] for x in ss):
+            continue
+        # a hint parameter: None from the reconstruction path, a value from callers the reconstruction never runs
+        # (the other direction - `commit_token`'s output block, None while analysing - is data the analysis does not need)
+        if any((x[0] in recon) != x[1] for x in ss):
+            continue
+        n += 1
+        cb = F.bodies[cd]
+        l = i + 1
+        uses = []
+        for bb in sorted(cb.normal_blocks()):
+            for st in list(cb.stmts(bb)) + [cb.term(bb)]:
+                if st.get("exp") and any(m in ("println", "print", "eprintln", "format", "format_args", "debug_assert", "debug_assert_eq", "log") for m in macro_names(st.get("exp"))):
+                    continue
+                if st.get("k") in ("storage_live", "storage_dead", "nop"):
+                    continue
+                if _mentions(st, l):
+                    uses.append(cb.where(bb))
+        short = cd.replace(P, "")
+        rep.add(rule, "analysis-only-hint-unused:%s#%d" % (short, i), not uses, "%s:%s" % (cb.file, cb.line),
+                "parameter %d of %s is None from %s and a value from %s; used at %s" % (
+                    i, short, sorted({x[0].replace(P, "") for x in ss if x[1]}), sorted({x[0].replace(P, "") for x in ss if not x[1]}), sorted(set(uses))[:4] or "no place outside log output"))
+    # the one instance on the reference tree; a tree where the parameter is gone has nothing to check
+    need = 1 if any(k.endswith("::repredict_reference") and F.bodies[k].argc >= 2 for k in F.bodies) else 0
+    rep.floor(rule, "hint-parameters", n, need)
 
 
 def _written_values(F, wb, t):
